@@ -991,7 +991,11 @@ func runBounded(repo, src, pkg, tier string) (status, detail string) {
 	data, _ := json.Marshal(map[string]interface{}{"Replace": map[string]string{target: src}})
 	ovPath := filepath.Join(work, "overlay.json")
 	os.WriteFile(ovPath, data, 0o644)
-	cmd := exec.Command("go", "test", "-overlay", ovPath, "-vet=off", "-count=1", "-timeout", "600s", "-run", "TestVerifBounded", "-v", ".")
+	limit := "120s"
+	if tier == "thorough" {
+		limit = "600s"
+	}
+	cmd := exec.Command("go", "test", "-overlay", ovPath, "-vet=off", "-count=1", "-timeout", limit, "-run", "TestVerifBounded", "-v", ".")
 	cmd.Dir = pkgDir
 	cmd.Env = append(os.Environ(), "GOFLAGS=-mod=mod", "GOPROXY=off", "GOSUMDB=off", "GOTOOLCHAIN=local", "VERIF_BOUNDED_TIER="+tier)
 	out, _ := cmd.CombinedOutput()
@@ -1004,6 +1008,10 @@ func runBounded(repo, src, pkg, tier string) (status, detail string) {
 	}
 	if len(fails) > 0 {
 		return "fail", strings.Join(fails, "\n")
+	}
+	if strings.Contains(s, "panic: test timed out") {
+		// a call of the real code that does not return is a failure of the stand-in, not a broken check
+		return "fail", "BOUNDED-FAIL the run of the real code did not terminate within " + limit + " (go test -timeout): a call hangs on one of the enumerated inputs\n" + trunc(s, 1500)
 	}
 	for _, l := range strings.Split(s, "\n") {
 		if i := strings.Index(l, "BOUNDED-OK"); i >= 0 {
